@@ -39,6 +39,24 @@ func StructuredSet(lengths ...int) InputSet {
 	}}
 }
 
+// FewLong is a five-member family of length n: a run, (ab)*, (abc)*, Fibonacci, Thue-Morse.
+func FewLong(n int) InputSet {
+	return InputSet{fmt.Sprintf("{a^n,(ab)^,(abc)^,fib,thue-morse} n=%d", n), func(f func([]byte)) {
+		mk := func(u string) []byte {
+			s := make([]byte, n)
+			for i := range s {
+				s[i] = u[i%len(u)]
+			}
+			return s
+		}
+		f(mk("a"))
+		f(mk("ab"))
+		f(mk("abc"))
+		f(Fibonacci(n, 'a', 'b'))
+		f(ThueMorse(n, 'a', 'b'))
+	}}
+}
+
 // Union concatenates input sets.
 func Union(sets ...InputSet) InputSet {
 	name := ""
